@@ -341,7 +341,7 @@ theorem cmd_back {s : Sys} (i : Wid) (c : Cmd) (hok : ∀ p fn, c ≠ .resume p 
     repeat' split
     all_goals first
       | exact lift (PcBack.refl _)
-      | (simp only [setWk_wk, upd_same]; exact lift (PcBack.of_procs rfl))
+      | (simp only [noteExit_wk, setWk_wk, upd_same]; exact lift (PcBack.of_procs rfl))
 
 theorem handleCmd_sent (R : Rules) (s : Sys) (i : Wid) (c : Cmd) : (handleCmdWith R s i c).sent = s.sent := by
   cases c <;> simp only [handleCmdWith] <;> (repeat' split) <;> rfl
@@ -369,6 +369,7 @@ theorem envStep1_sent (combine) (s : Sys) (w : Wid) : (envStep1With combine s w)
       repeat' split
       all_goals rfl
     | resultResp req r => rfl
+    | exited p => rfl
 
 theorem checkStep_sent (s : Sys) (i : Wid) (ordE : List Pid) : (QM.Sys.checkStep s i ordE).sent = s.sent := by
   have hrep : ∀ (a : Sys) (t : Pid), (reportTarget a i t).sent = a.sent := by
@@ -437,16 +438,16 @@ theorem exec_sends (ρ : Nat → Nat → Nat) (s : Sys) (i : Wid) (fuel : Nat) (
   generalize (s.wk i).checkExpired s.prog s.now ordQ = w0 at hp0 ⊢
   have h0 : PcBack (s.wk i) w0 := PcBack.of_procs hp0
   split
-  · exact execSends_of_back rfl (by simp only [setWk_wk, upd_same]; exact h0)
+  · exact execSends_of_back rfl (by simp only [noteExit_wk, setWk_wk, upd_same]; exact h0)
   · rename_i cur rest _
     have h1 : PcBack (s.wk i) { w0 with queue := rest } := h0.trans (PcBack.of_procs rfl)
     split
-    · exact execSends_of_back rfl (by simp only [setWk_wk, upd_same]; exact h1)
+    · exact execSends_of_back rfl (by simp only [noteExit_wk, setWk_wk, upd_same]; exact h1)
     · rename_i x hx
       have hxs : (s.wk i).procs cur = some x := by rw [← hp0]; exact hx
       split
-      · exact execSends_of_back rfl (by
-          simp only [setWk_wk, upd_same]
+      · exact execSends_of_back (by simp) (by
+          simp only [noteExit_wk, setWk_wk, upd_same]
           exact h1.trans (PcBack.finish _ cur x x ordQ hx rfl rfl))
       · have hsl := slice_sends s.prog ρ s.now cur fuel x
         have hpc := slice_pc s.prog s.now cur fuel x
@@ -488,17 +489,17 @@ theorem exec_sends (ρ : Nat → Nat → Nat) (s : Sys) (i : Wid) (fuel : Nat) (
           · rename_i t m heq; exact absurd heq (hne t m)
           · exact hout
         cases out with
-        | cont => exact key _ [] (by simp) (by simp only [setWk_wk, upd_same]; exact PcBack.of_procs rfl) (by simp) (Or.inl ⟨rfl, knone (by simp)⟩)
-        | blocked => exact key _ [] (by simp) (by simp only [setWk_wk, upd_same]; exact PcBack.of_procs rfl) (by simp) (Or.inl ⟨rfl, knone (by simp)⟩)
+        | cont => exact key _ [] (by simp) (by simp only [noteExit_wk, setWk_wk, upd_same]; exact PcBack.of_procs rfl) (by simp) (Or.inl ⟨rfl, knone (by simp)⟩)
+        | blocked => exact key _ [] (by simp) (by simp only [noteExit_wk, setWk_wk, upd_same]; exact PcBack.of_procs rfl) (by simp) (Or.inl ⟨rfl, knone (by simp)⟩)
         | spawn f regs => exact key _ [] (by simp [Sys.pushEvt, Sys.setWk]) (by simp only [pushEvt_wk, setWk_wk, upd_same]; exact PcBack.of_procs rfl) (by simp) (Or.inl ⟨rfl, knone (by simp)⟩)
         | awaitInit ts => exact key _ [] (by simp [Sys.pushEvt, Sys.setWk]) (by simp only [pushEvt_wk, setWk_wk, upd_same]; exact PcBack.of_procs rfl) (by simp) (Or.inl ⟨rfl, knone (by simp)⟩)
         | failed =>
           exact key _ [] (by simp [Sys.setWk]) (by
-            simp only [setWk_wk, upd_same]
+            simp only [noteExit_wk, setWk_wk, upd_same]
             exact PcBack.finish _ cur x' x' ordQ (by simp) rfl rfl) (by simp) (Or.inl ⟨rfl, knone (by simp)⟩)
         | done =>
           exact key _ [] (by simp [Sys.setWk]) (by
-            simp only [setWk_wk, upd_same]
+            simp only [noteExit_wk, setWk_wk, upd_same]
             exact PcBack.finish _ cur x' x' ordQ (by simp) rfl rfl) (by simp) (Or.inl ⟨rfl, knone (by simp)⟩)
         | send t m =>
           unfold OutSend at hout
